@@ -20,12 +20,7 @@ import (
 func gcLivenessGroup(c *Ctx, rule string) {
 	c.Rule(rule, "valueLog.rewrite re-inserts a scanned record only when the LSM's current pointer for that key is in the same bucket and is not newer than the scanned position (fid, offset); the re-inserted entry's Key, Value and ExpiresAt are copied from the scanned record; records whose LSM entry is deleted/expired/inline are discarded (kv.DiscardEntry); the GC sampler (doRunGC) classifies records with the same comparisons")
 	if fn := c.Fn("", "valueLog.rewrite"); fn != nil {
-		var proc *ssa.Function
-		for _, a := range fn.AnonFuncs {
-			if len(Calls(a, false, Named("kv.DiscardEntry"))) > 0 {
-				proc = a
-			}
-		}
+		proc := gcDeciderOf(fn, false)
 		if proc == nil {
 			c.Fail(rule, key(fn, "has:process-closure"), fn.Pos(), 1, "no re-insert closure calling kv.DiscardEntry found in rewrite")
 		} else {
@@ -830,12 +825,7 @@ func gcReinsertAtomicGroup(c *Ctx, rule string) {
 		return
 	}
 	// the liveness decider: the closure of rewrite that decodes the live pointer
-	var decider *ssa.Function
-	for _, a := range rw.AnonFuncs {
-		if len(Calls(a, false, Named("kv.(*ValuePtr).Decode"))) > 0 && len(Calls(a, false, Named("kv.DiscardEntry"))) > 0 {
-			decider = a
-		}
-	}
+	decider := gcDeciderOf(rw, true)
 	if decider == nil {
 		c.Fail(rule, key(rw, "has:liveness-decider"), rw.Pos(), 1, "no liveness-deciding closure found in rewrite")
 		return
@@ -2355,4 +2345,64 @@ func manifestOpenersVerifyGroup(c *Ctx, rule string) {
 		}
 	}
 	c.Floor(rule, n, 3, "callers of manifest.Open")
+}
+
+// gcDeciderOf finds the per-record callback of value-log GC: the function that calls
+// kv.DiscardEntry (and, when needDecode, decodes the live pointer) among rewrite's closures,
+// its same-package callees and the functions or bound methods it passes around as values.
+func gcDeciderOf(rw *ssa.Function, needDecode bool) *ssa.Function {
+	ok := func(f *ssa.Function) bool {
+		if f == nil || f.Blocks == nil || len(Calls(f, false, Named("kv.DiscardEntry"))) == 0 {
+			return false
+		}
+		return !needDecode || len(Calls(f, false, Named("kv.(*ValuePtr).Decode"))) > 0
+	}
+	for _, a := range rw.AnonFuncs {
+		if ok(a) {
+			return a
+		}
+	}
+	var cands []*ssa.Function
+	add := func(f *ssa.Function) {
+		if f == nil {
+			return
+		}
+		// a bound-method or thunk wrapper: look at what it calls
+		if f.Synthetic != "" {
+			AllInstrs(f, false, func(in ssa.Instruction) {
+				if ci, isCall := in.(ssa.CallInstruction); isCall {
+					if t := StaticFn(ci.Common()); t != nil {
+						cands = append(cands, t)
+					}
+				}
+			})
+			return
+		}
+		cands = append(cands, f)
+	}
+	AllInstrs(rw, true, func(in ssa.Instruction) {
+		if ci, isCall := in.(ssa.CallInstruction); isCall {
+			add(StaticFn(ci.Common()))
+		}
+		var ops []*ssa.Value
+		for _, op := range in.Operands(ops) {
+			if op == nil || *op == nil {
+				continue
+			}
+			switch x := (*op).(type) {
+			case *ssa.Function:
+				add(x)
+			case *ssa.MakeClosure:
+				if f, isF := x.Fn.(*ssa.Function); isF {
+					add(f)
+				}
+			}
+		}
+	})
+	for _, f := range cands {
+		if FuncPkgPath(f) == FuncPkgPath(rw) && ok(f) {
+			return f
+		}
+	}
+	return nil
 }
